@@ -288,9 +288,9 @@ def run(ctx):
                         "lines_per_delimiter": by_key}
     ctx.cov["traces_validated_against_impl"] += len(lines) + len(sels) + len(parses) + len(e2e) + len(toks5)
     for c in lines:
-        if len(c["toks"]) == 3 and len(c["hits"]) > 20:
+        if len(c["toks"]) == 3 and len(c["hits"]) > 20 and "e~" in c["line"]:
             ctx.sample({"line": txt(c["line"]), "delimiter": dkey(c["d"]), "tokens": [[txt(t["t"]), t["p"]] for t in c["toks"]],
-                        "first_hits": [[cb.combo_str(x[0]), x[1], x[2]] for x in c["hits"][:4]],
+                        "hits": [[cb.combo_str(x[0]), x[1], x[2]] for x in c["hits"] if x[1] >= 0 and cb.combo(x[0])[0] > 0][:4],
                         "with_nth": {spec_arg(menu["specs"][i]): txt(c["shown"][i]) for i in (0, 6)}})
             if len(ctx.cov["samples"]) >= 3:
                 break
